@@ -6,7 +6,7 @@ import re
 
 from ..program import AnalysisError, walk_local, dotted
 from ..analysis import Spec, src, const_value
-from ..rules import (value_leaves, string_template, cond_branches, canon, cond_equiv, positional_args, substitute_locals, template_sites, GWF, EXC, mpt, need_func, stores_to, is_const, kw,
+from ..rules import (first_rest, value_leaves, string_template, cond_branches, canon, cond_equiv, positional_args, substitute_locals, template_sites, GWF, EXC, mpt, need_func, stores_to, is_const, kw,
                      parent_map, raise_class, substitute_locals)
 from . import common, c18
 from .c12 import _first_exit
@@ -240,15 +240,25 @@ def parent_id_round_trip(prog, an, rep):
     fa = [x for x in prog.calls_in(g) if dotted(x.func) == 're.findall']
     ok = len(fa) == 1 and const_value(fa[0].args[0]) == r'\d+' and \
         src(fa[0].args[1]) == g.params[1] + '.description'
-    take = any(isinstance(n, ast.Assign) and
-               isinstance(n.targets[0], ast.Tuple) and
-               src(n.targets[0].elts[0]) == 'parent_id' and
-               isinstance(n.targets[0].elts[1], ast.Starred)
-               for n in walk_local(g.node, include_root=False))
+    # (`parent_id, *_ = ids` reaches the rules as `parent_id = ids[0]`)
+    take = any(_first_number(g, n.value)
+               for n in walk_local(g.node, include_root=False)
+               if isinstance(n, ast.Assign) and len(n.targets) == 1 and
+               isinstance(n.targets[0], ast.Name))
     rep.evaluated()
     rep.check(ok and take, R, g.qname + ': the parent id is the first '
               'number of the child description', g.where(), 'the parent id '
               'is parsed by %s' % [src(x) for x in fa])
+
+
+def _first_number(g, v):
+    """v is <re.findall(r'\\d+', <child>.description)>[0]."""
+    if not (isinstance(v, ast.Subscript) and is_const(v.slice, 0)):
+        return False
+    base = substitute_locals(g, v.value)
+    return isinstance(base, ast.Call) and dotted(base.func) == 're.findall' \
+        and len(base.args) == 2 and const_value(base.args[0]) == r'\d+' and \
+        src(base.args[1]) == g.params[1] + '.description'
 
 
 def name_builders(prog, an, rep):
@@ -319,7 +329,8 @@ def redirects(prog, an, rep):
         m = re.search(r'get_pull_request\(int\((\w+)\)\)', src(pj[0]))
         if m:
             vals = [v for _, v in stores_to(g, m.group(1))]
-            ok = any(v is None for v in vals) and any(
+            ok = any(v is not None and _first_number(g, v)
+                     for v in vals) and any(
                 v is not None and src(v) == g.params[1] + '.id'
                 for v in vals) and len(vals) == 2
     rep.check(ok, R, g.qname + ': evaluates the parent pull request',
@@ -638,13 +649,8 @@ def merge_cleanup(prog, an, rep):
             # the loop ranges over the rest of the wbranches parameter
             # (first, *rest = wbranches): the first one stands for the
             # source branch
-            rest = {st.targets[0].elts[1].value.id
-                    for st in walk_local(f.node, include_root=False)
-                    if isinstance(st, ast.Assign) and
-                    isinstance(st.targets[0], ast.Tuple) and
-                    len(st.targets[0].elts) == 2 and
-                    isinstance(st.targets[0].elts[1], ast.Starred) and
-                    src(st.value) == f.params[1]}
+            rest = {r for _, r, lst in first_rest(f)
+                    if r is not None and src(lst) == f.params[1]}
             ok = isinstance(loop, ast.For) and src(loop.iter) in rest \
                 and src(x.func.value) == loop.target.id
             rep.check(ok, R, f.qname + ': after a merge its own integration '
